@@ -1,6 +1,6 @@
 (* C11 — lemmas about Model/FileConfine.v: confinement of every mutation of the
    repaired store to the working directory. *)
-From Oras Require Import Base.Prelude Model.FileConfine.
+From Oras Require Import Base.Prelude Generated.GC11 Model.FileConfine.
 Require Import Lia.
 Open Scope nat_scope.
 Global Opaque FUEL NLINK.
@@ -561,16 +561,77 @@ Lemma walk_nil fuel f nl cur follow :
   walk fuel f nl cur [] follow = WDir cur \/ walk fuel f nl cur [] follow = WErr.
 Proof. destruct fuel; simpl; auto. Qed.
 
+(* the last element is followed only when it is a link: an Lstat that did not see a link sees what
+   the following system call sees *)
+Lemma walk_follow_agrees f : forall fuel nl cur rem,
+  (forall q d a cs, walk fuel f nl cur rem false <> WSym q d a cs) ->
+  walk fuel f nl cur rem true = walk fuel f nl cur rem false.
+Proof.
+  induction fuel as [|fuel IH]; intros nl cur rem H; [reflexivity|].
+  destruct rem as [|[|c] r]; simpl in *; [reflexivity | now apply IH |].
+  destruct (lookup f (cur ++ [c])) as [[|i|d a cs]|]; try reflexivity.
+  - now apply IH.
+  - destruct r as [|c2 r'].
+    + exfalso. apply (H (cur ++ [c]) d a cs). reflexivity.
+    + destruct nl; [reflexivity | now apply IH].
+Qed.
+
+Definition nosym (f : fsys) (fp : list name) : Prop := forall q d a cs, awalk f fp false <> WSym q d a cs.
+
+Lemma nosym_of_lookup f fp :
+  lexreal f [] fp = true -> (forall d a cs, lookup f fp <> Some (NSym d a cs)) -> nosym f fp.
+Proof.
+  intros HL Hns q d a cs E.
+  pose proof (walk_lexical f fp FUEL NLINK [] HL) as Wl. fold (awalk f fp false) in Wl.
+  pose proof (walk_lookup f FUEL NLINK [] (Nms fp) false) as Wk. fold (awalk f fp false) in Wk.
+  rewrite E in Wl, Wk. simpl in Wl. subst q. destruct Wk as [L _]. exact (Hns d a cs L).
+Qed.
+
+(* a directory result of a lexical walk of a non-empty path is an entry of the tree *)
+Lemma walk_dir_is_entry f : forall ns cur fu n0,
+  lexreal f cur ns = true -> ns <> [] -> lookup f (cur ++ ns) <> Some NDir ->
+  walk fu f n0 cur (Nms ns) false <> WDir (cur ++ ns).
+Proof.
+  induction ns as [|c r IHr]; intros cur fu n0 HL0 Hn0 Hd; [contradiction|].
+  destruct fu as [|fu]; [discriminate|]. simpl. simpl in HL0.
+  destruct r as [|c2 r'].
+  - destruct (lookup f (cur ++ [c])) as [[|i0|d0 a0 cs0]|] eqn:L0; try discriminate. now elim Hd.
+  - destruct (lookup f (cur ++ [c])) as [[|i0|d0 a0 cs0]|] eqn:L0; try discriminate.
+    specialize (IHr (cur ++ [c]) fu n0 HL0). rewrite <- app_assoc in IHr. apply IHr; [discriminate | exact Hd].
+Qed.
+
+(* what an Lstat at a path whose parents are real tells about the tree *)
+Lemma klstat_fwd f p :
+  lexreal f [] p = true -> p <> [] ->
+  match klstat f p with
+  | LDir q => q = p /\ lookup f p = Some NDir
+  | LFile => exists i, lookup f p = Some (NFile i)
+  | LSym => exists d a cs, lookup f p = Some (NSym d a cs)
+  | _ => True
+  end.
+Proof.
+  intros HL Hne. unfold klstat.
+  pose proof (walk_lexical f p FUEL NLINK [] HL) as Wl. fold (awalk f p false) in Wl.
+  pose proof (walk_lookup f FUEL NLINK [] (Nms p) false) as Wk. fold (awalk f p false) in Wk.
+  destruct (awalk f p false) eqn:E; simpl in *; try exact Logic.I.
+  - subst p0. split; [reflexivity|].
+    destruct (lookup f p) as [[|i|d a cs]|] eqn:L; [reflexivity | | |]; exfalso;
+      apply (walk_dir_is_entry f p [] FUEL NLINK HL Hne); simpl; try (rewrite L; discriminate); exact E.
+  - destruct Wk as [L _]. subst p0. exists i. exact L.
+  - destruct Wk as [L _]. subst p0. exists d, a, cs. exact L.
+Qed.
+
 Lemma write_at_lex wd fp c mo f f' :
   Inv wd f -> inside wd fp = true -> lexreal f [] fp = true ->
-  (forall d a cs, lookup f fp <> Some (NSym d a cs)) ->
+  nosym f fp ->
   write_at f (Nms fp) c mo = Some f' ->
   Keeps wd f f' /\ only_at f f' fp /\ exists i, lookup f' fp = Some (NFile i).
 Proof.
   intros I Hin HL Hns H. unfold write_at in H.
-  pose proof (walk_lex f fp FUEL NLINK [] true HL (fun _ => Hns)) as Wl.
-  pose proof (walk_lookup f FUEL NLINK [] (Nms fp) true) as Wk.
-  destruct (walk FUEL f NLINK [] (Nms fp) true); try discriminate; injection H as <-;
+  rewrite (walk_follow_agrees f FUEL NLINK [] (Nms fp) Hns) in H.
+  pose proof (walk_lexical f fp FUEL NLINK [] HL) as Wl.
+  pose proof (walk_lookup f FUEL NLINK [] (Nms fp) false) as Wk.
+  destruct (walk FUEL f NLINK [] (Nms fp) false); try discriminate; injection H as <-;
     simpl in Wl; subst p; destruct Wk as [L Hne].
   - split; [eapply keeps_setcont; eauto|]. split; [intros q _; reflexivity|]. exists i. exact L.
   - split; [apply keeps_newfile; [exact I|]; eapply inside_sinside; eauto; rewrite L; discriminate|].
@@ -660,18 +721,23 @@ Qed.
 Lemma unlink_if_lex wd fp f f' :
   Inv wd f -> inside wd fp = true -> lexreal f [] fp = true ->
   unlink_if_symlink f fp = Some f' ->
-  Keeps wd f f' /\ only_at f f' fp /\ (forall d a cs, lookup f' fp <> Some (NSym d a cs)).
+  Keeps wd f f' /\ only_at f f' fp /\ nosym f' fp.
 Proof.
   intros I Hin HL H. unfold unlink_if_symlink in H.
-  destruct (lookup f fp) as [[|i|d a cs]|] eqn:L;
-    try (injection H as <-; split; [now apply Keeps_refl|]; split; [apply only_at_refl|];
-         intros d0 a0 cs0; rewrite L; discriminate).
+  assert (Hkeep : klstat f fp <> LSym -> Some f = Some f' -> Keeps wd f f' /\ only_at f f' fp /\ nosym f' fp).
+  { intros Hk [= <-]. split; [now apply Keeps_refl|]. split; [apply only_at_refl|].
+    intros q d a cs E. apply Hk. unfold klstat. rewrite E. reflexivity. }
+  destruct (klstat f fp) eqn:EK; try (apply Hkeep; [discriminate | exact H]).
   destruct fp as [|x fp']; [rewrite remove_at_nil in H; discriminate|].
+  pose proof (klstat_fwd f (x :: fp') HL ltac:(discriminate)) as Kf. rewrite EK in Kf.
+  destruct Kf as (d & a & cs & L).
   assert (Hs : sinside wd (x :: fp')).
   { eapply inside_sinside; eauto; [discriminate | rewrite L; discriminate]. }
   destruct (remove_at_lex wd _ f f' I Hs HL H) as (-> & K & _).
   split; [exact K|]. split; [apply only_at_del|].
-  intros d0 a0 cs0. rewrite lookup_delent, path_eqb_refl. discriminate.
+  apply nosym_of_lookup.
+  - rewrite (lexreal_only_at f _ _ (only_at_del f (x :: fp'))). exact HL.
+  - intros d0 a0 cs0. rewrite lookup_delent, path_eqb_refl. discriminate.
 Qed.
 
 Lemma do_symlink_lex wd fp d a cs f f' :
@@ -761,11 +827,13 @@ Proof.
   - injection H as <-. rewrite app_nil_r. split; [now apply Keeps_refl|]. split; [exact HR | apply only_below_refl].
   - cbn [mkdir_real] in H.
     assert (Hin' : inside wd (cur ++ [c]) = true) by now apply inside_app.
-    destruct (lookup f (cur ++ [c])) as [[|i|d a cs]|] eqn:L; try discriminate.
-    + destruct (IH (cur ++ [c]) f f' I Hin' (RealD_snoc _ _ _ HR L) H) as (K & R & O).
+    assert (HL : lexreal f [] (cur ++ [c]) = true) by (apply RealD_lexreal; [exact HR | reflexivity]).
+    pose proof (klstat_fwd f (cur ++ [c]) HL (snoc_not_nil cur c)) as Kf.
+    destruct (klstat f (cur ++ [c])) as [q| | | |] eqn:EK; try discriminate.
+    + destruct Kf as [_ L].
+      destruct (IH (cur ++ [c]) f f' I Hin' (RealD_snoc _ _ _ HR L) H) as (K & R & O).
       rewrite <- app_assoc in R. split; [exact K|]. split; [exact R | exact (only_below_step _ _ _ c O)].
-    + assert (HL : lexreal f [] (cur ++ [c]) = true) by (apply RealD_lexreal; [exact HR | reflexivity]).
-      pose proof (walk_lexical f (cur ++ [c]) FUEL NLINK [] HL) as Wl. fold (awalk f (cur ++ [c]) false) in Wl.
+    + pose proof (walk_lexical f (cur ++ [c]) FUEL NLINK [] HL) as Wl. fold (awalk f (cur ++ [c]) false) in Wl.
       destruct (awalk f (cur ++ [c]) false); try discriminate. simpl in Wl. subst p.
       assert (Hs : sinside wd (cur ++ [c])) by (apply inside_sinside_app; [exact Hin | discriminate]).
       pose proof (keeps_newdir wd f (cur ++ [c]) mo I Hs) as K1.
@@ -812,14 +880,6 @@ Proof.
   apply RealD_lexreal; [exact HR | now apply parents_ok_lexreal].
 Qed.
 
-Lemma unlink_if_real f dp f0 : RealD f [] dp -> unlink_if_symlink f dp = Some f0 -> f0 = f.
-Proof.
-  intros HR H. unfold unlink_if_symlink in H. destruct dp as [|x d'].
-  - destruct (lookup f []) as [[|i|d a cs]|]; try (now injection H as <-).
-    rewrite remove_at_nil in H. discriminate.
-  - pose proof (HR (x :: d') []) as L. simpl in L. rewrite L in H; [now injection H as <- | now rewrite app_nil_r | discriminate].
-Qed.
-
 Lemma RealD_same f f' dp : (forall q, lookup f' q = lookup f q) -> RealD f [] dp -> RealD f' [] dp.
 Proof. intros S H q r E Hq. rewrite S. apply (H q r E Hq). Qed.
 
@@ -839,7 +899,7 @@ Lemma mkdir_real_mono mo : forall qs cur f f',
 Proof.
   induction qs as [|c r IH]; intros cur f f' H q v L.
   - injection H as <-. exact L.
-  - cbn [mkdir_real] in H. destruct (lookup f (cur ++ [c])) as [[|i|d a cs]|] eqn:E; try discriminate.
+  - cbn [mkdir_real] in H. destruct (klstat f (cur ++ [c])) as [q0| | | |] eqn:E; try discriminate.
     + eapply IH; eauto.
     + pose proof (walk_lookup f FUEL NLINK [] (Nms (cur ++ [c])) false) as Wk. fold (awalk f (cur ++ [c]) false) in Wk.
       destruct (awalk f (cur ++ [c]) false); try discriminate. destruct Wk as [Ln _].
@@ -880,8 +940,12 @@ Proof.
     assert (O01 : only_at f f1 fp) by (eapply only_at_trans; eauto).
     assert (S01 : Step f f1 fp).
     { right. split; [exact O01|]. split; [rewrite L1; discriminate|].
-      intros L _. exfalso. unfold unlink_if_symlink in U. rewrite L in U. injection U as <-.
-      rewrite (write_at_dir_none f fp c mo HL L) in Wr. discriminate. }
+      intros L _. exfalso. unfold unlink_if_symlink in U.
+      assert (Hfpne : fp <> []) by (unfold fp, rel; destruct dp; discriminate).
+      pose proof (klstat_fwd f fp HL Hfpne) as Kf.
+      destruct (klstat f fp);
+        try (injection U as <-; rewrite (write_at_dir_none f fp c mo HL L) in Wr; discriminate).
+      destruct Kf as (d0 & a0 & cs0 & L2). rewrite L in L2. discriminate. }
     destruct pres.
     + assert (HL1 : lexreal f1 [] fp = true) by (rewrite (lexreal_only_at _ _ _ O1); exact HL0).
       assert (N1 : forall d a cs, lookup f1 fp <> Some (NSym d a cs)) by (intros; rewrite L1; discriminate).
@@ -922,18 +986,20 @@ Lemma touch_keeps wd fp t f :
   Keeps wd f (touch cfg_fixed f fp t) /\ (forall q, lookup (touch cfg_fixed f fp t) q = lookup f q).
 Proof.
   intros I Hin HL. unfold touch. cbn [fixT cfg_fixed].
-  assert (Hch : (forall d a cs, lookup f fp <> Some (NSym d a cs)) ->
+  assert (Hch : nosym f fp ->
                 Keeps wd f (chtimes_at f fp t) /\ (forall q, lookup (chtimes_at f fp t) q = lookup f q)).
   { intro Hns. unfold chtimes_at. destruct t as [|tp]; [split; [now apply Keeps_refl | reflexivity]|].
-    unfold awalk.
-    pose proof (walk_lex f fp FUEL NLINK [] true HL (fun _ => Hns)) as Wl.
-    pose proof (walk_lookup f FUEL NLINK [] (Nms fp) true) as Wk.
-    destruct (walk FUEL f NLINK [] (Nms fp) true); try (split; [now apply Keeps_refl | reflexivity]);
+    unfold awalk. rewrite (walk_follow_agrees f FUEL NLINK [] (Nms fp) Hns).
+    pose proof (walk_lexical f fp FUEL NLINK [] HL) as Wl.
+    pose proof (walk_lookup f FUEL NLINK [] (Nms fp) false) as Wk.
+    destruct (walk FUEL f NLINK [] (Nms fp) false); try (split; [now apply Keeps_refl | reflexivity]);
       simpl in Wl; subst p.
     - split; [now apply keeps_setdstamp | reflexivity].
     - destruct Wk as [L _]. split; [eapply keeps_setfstamp; eauto | reflexivity]. }
-  destruct (lookup f fp) as [[|i|d a cs]|] eqn:L; try (apply Hch; intros; discriminate).
-  split; [now apply Keeps_refl | reflexivity].
+  assert (Hk : klstat f fp <> LSym -> nosym f fp).
+  { intros Hk q d a cs E. apply Hk. unfold klstat. rewrite E. reflexivity. }
+  destruct (klstat f fp) eqn:EK; try (split; [now apply Keeps_refl | reflexivity]);
+    apply Hch, Hk; discriminate.
 Qed.
 
 (* a recorded directory: every proper ancestor is a real directory and still has its child on
@@ -1000,6 +1066,14 @@ Proof.
 Qed.
 
 (* restoreDirModes: each chmod hits a recorded directory that is still a real directory *)
+Lemma Recd_lexreal f p : Recd f p -> lexreal f [] p = true.
+Proof.
+  intro H. destruct p as [|x l] using rev_ind; [reflexivity|].
+  apply RealD_lexreal; [|reflexivity].
+  intros q r0 E Hq. simpl. destruct (r0 ++ [x]) as [|c r] eqn:Er; [destruct r0; discriminate|].
+  apply (H q c r); [|exact Hq]. rewrite E, <- app_assoc, Er. reflexivity.
+Qed.
+
 Lemma restore_dirs_keeps wd pres : forall dirs f f' seen,
   Inv wd f -> Recds f dirs -> Forall (fun d => inside wd (fst d) = true) dirs ->
   restore_dirs pres f dirs seen = Some f' -> Keeps wd f f'.
@@ -1009,22 +1083,27 @@ Proof.
   - cbn [restore_dirs] in H. inversion HD as [|? ? Hp Hr]; subst. inversion Hin as [|? ? Ip Ir]; subst.
     simpl in Hp, Ip.
     destruct (existsb (path_eqb p) seen); [exact (IH f f' seen I Hr Ir H)|].
-    destruct (lookup f p) as [[|i|d a cs]|] eqn:L; try discriminate; try exact (IH f f' (p :: seen) I Hr Ir H).
+    assert (HRp : forall q, klstat f p = LDir q -> RealD f [] p).
+    { intros q EK. destruct p as [|x p']; [intros q0 r0 E Hq0; destruct q0; [contradiction | discriminate]|].
+      pose proof (klstat_fwd f (x :: p') (Recd_lexreal _ _ Hp) ltac:(discriminate)) as Kf.
+      rewrite EK in Kf. destruct Kf as [_ L]. exact (Recd_RealD _ _ Hp L). }
+    destruct (klstat f p) as [q| | | |] eqn:EK; try discriminate; try exact (IH f f' (p :: seen) I Hr Ir H).
     match type of H with (if ?c then _ else _) = _ => destruct c end; [exact (IH f f' (p :: seen) I Hr Ir H)|].
     match type of H with match chmod_at f p ?w with _ => _ end = _ => destruct (chmod_at f p w) as [f1|] eqn:Cm end; [|discriminate].
-    destruct (chmod_at_real wd p _ f f1 I Ip (Recd_RealD _ _ Hp L) Cm) as [K1 S1].
+    destruct (chmod_at_real wd p _ f f1 I Ip (HRp q eq_refl) Cm) as [K1 S1].
     eapply Keeps_trans; [exact K1|]. apply (IH f1 f' (p :: seen) (proj1 K1)); [|exact Ir | exact H].
     unfold Recds in *. rewrite Forall_forall in *. intros d Hd. apply (Recd_same f); auto.
 Qed.
 
-Lemma extract_keeps wd pres cwd dp dirName : forall es f f' ok ts dirs,
+Lemma extract_keeps wd pres cwd dp dirName trunc : forall es f f' ok ts dirs,
   Inv wd f -> inside wd dp = true -> RealD f [] dp ->
   Recds f dirs -> Forall (fun d => inside wd (fst d) = true) dirs ->
-  extract cfg_fixed pres cwd dp dirName f es ts dirs = (f', ok) ->
+  extract cfg_fixed pres cwd dp dirName f es ts dirs trunc = (f', ok) ->
   Keeps wd f f'.
 Proof.
   induction es as [|e es IH]; intros f f' ok ts dirs I Hd HR HD Hin H.
-  - cbn [extract] in H. destruct (restore_dirs pres f dirs []) as [f1|] eqn:R; injection H as <- _.
+  - cbn [extract] in H. destruct trunc; [injection H as <- _; now apply Keeps_refl|].
+    destruct (restore_dirs pres f dirs []) as [f1|] eqn:R; injection H as <- _.
     + eapply restore_dirs_keeps; eauto.
     + now apply Keeps_refl.
   - cbn [extract] in H.
@@ -1063,85 +1142,145 @@ Proof.
     congruence.
 Qed.
 
+Lemma write_path_fixed wd title raw :
+  write_path cfg_fixed wd title = Some raw -> exists cl, raw = Nms cl /\ inside wd cl = true.
+Proof.
+  intro EW. unfold write_path in EW. cbn [fixA cfg_fixed] in EW.
+  match type of EW with (if inside wd ?c then _ else _) = _ => destruct (inside wd c) eqn:Ein; [|discriminate] end.
+  injection EW as <-. eexists. split; [reflexivity | exact Ein].
+Qed.
+
+(* ensureWriteDir of a directory below the working directory *)
+Lemma ensure_write_dir_below wd f rel rawdir f1 :
+  Inv wd f -> ensure_write_dir cfg_fixed wd f (wd ++ rel) rawdir = Some f1 ->
+  Keeps wd f f1 /\ RealD f1 [] (wd ++ rel).
+Proof.
+  intros I H. unfold ensure_write_dir in H. cbn [fixN cfg_fixed] in H.
+  assert (SP : strip_prefix wd (wd ++ rel) = Some rel) by now apply strip_prefix_spec.
+  rewrite SP in H. pose proof (RealD_inv _ _ I) as HRwd.
+  destruct (mkdir_all f (Nms wd) c11_write_dir_perm) as [f0|] eqn:M0; [|discriminate].
+  unfold mkdir_all in M0. apply (mkdir_prefixes_noop f _ wd [] f0 HRwd) in M0. subst f0.
+  destruct (mkdir_real_lex wd _ rel wd _ f1 I (inside_refl wd) HRwd H) as (K1 & R1 & _).
+  split; assumption.
+Qed.
+
+Lemma push_blob_keeps wd s title w good s' ok :
+  Inv wd (st_fs s) ->
+  push_blob cfg_fixed wd s title w good = (s', ok) ->
+  Keeps wd (st_fs s) (st_fs s').
+Proof.
+  intros I H. unfold push_blob in H.
+  destruct (existsb (str_eqb title) (st_names s)).
+  { injection H as <- _. now apply Keeps_refl. }
+  destruct (write_path cfg_fixed wd title) as [raw|] eqn:EW.
+  2:{ injection H as <- _. now apply Keeps_refl. }
+  destruct (write_path_fixed _ _ _ EW) as (cl & -> & Hcl).
+  unfold cached, remember in H. cbn [fixW fixK cfg_fixed negb andb] in H.
+  pose proof (RealD_inv _ _ I) as HRwd.
+  rewrite removelast_Nms, !clean_abs_names in H.
+  destruct (strip_prefix wd (removelast cl)) as [rel|] eqn:SP.
+  - apply strip_prefix_spec in SP. rewrite SP in H.
+    destruct (ensure_write_dir cfg_fixed wd (st_fs s) (wd ++ rel) (Nms (wd ++ rel))) as [f1|] eqn:M.
+    2:{ injection H as <- _. now apply Keeps_refl. }
+    destruct (ensure_write_dir_below wd _ rel _ f1 I M) as (K1 & R1).
+    rewrite <- SP in R1.
+    pose proof (lexreal_of_parent _ _ R1) as HL1.
+    destruct (path_eqb cl wd) eqn:Hclwd; cbn [negb andb] in H.
+    { (* the title denotes the working directory itself: os.Create fails on the directory *)
+      apply path_eqb_spec in Hclwd. subst cl.
+      rewrite (write_at_real f1 wd w 438 (RealD_inv _ _ (proj1 K1))) in H. injection H as <- _. exact K1. }
+    destruct (unlink_if_symlink f1 cl) as [f1'|] eqn:U.
+    2:{ injection H as <- _. exact K1. }
+    destruct (unlink_if_lex wd cl f1 f1' (proj1 K1) Hcl HL1 U) as (K2 & O2 & N2).
+    assert (K12 : Keeps wd (st_fs s) f1') by (eapply Keeps_trans; eauto).
+    assert (HL2 : lexreal f1' [] cl = true) by (rewrite (lexreal_only_at _ _ _ O2); exact HL1).
+    destruct (write_at f1' (Nms cl) w 438) as [f2|] eqn:Wr.
+    + destruct (write_at_lex wd cl w 438 f1' f2 (proj1 K2) Hcl HL2 N2 Wr) as (K3 & O3 & (i3 & L3)).
+      assert (K13 : Keeps wd (st_fs s) f2) by (eapply Keeps_trans; eauto).
+      destruct good; [injection H as <- _; exact K13|].
+      destruct (remove_at f2 cl) as [f3|] eqn:Rm; injection H as <- _; [|exact K13]. simpl.
+      assert (Hne : cl <> []).
+      { intros ->. rewrite (write_at_real f1' [] w 438) in Wr; [discriminate|].
+        intros q r E Hq. destruct q; [contradiction | discriminate]. }
+      assert (Hs : sinside wd cl) by (eapply inside_sinside; [exact (proj1 K3) | exact Hcl | exact Hne | rewrite L3; discriminate]).
+      assert (HL3 : lexreal f2 [] cl = true) by (rewrite (lexreal_only_at _ _ _ O3); exact HL2).
+      destruct (remove_at_lex wd cl f2 f3 (proj1 K3) Hs HL3 Rm) as (_ & K4 & _).
+      eapply Keeps_trans; eauto.
+    + injection H as <- _. exact K12.
+  - destruct (parent_outside wd cl Hcl SP) as [-> Hwd].
+    assert (HRp : RealD (st_fs s) [] (removelast wd)).
+    { apply (RealD_prefix _ (removelast wd) [last wd []]). rewrite <- app_removelast_last by exact Hwd. exact HRwd. }
+    unfold ensure_write_dir in H. cbn [fixN cfg_fixed] in H. rewrite SP in H.
+    destruct (mkdir_all (st_fs s) (Nms (removelast wd)) c11_ensure_dir_perm) as [f1|] eqn:M.
+    2:{ injection H as <- _. now apply Keeps_refl. }
+    unfold mkdir_all in M.
+    apply (mkdir_prefixes_noop (st_fs s) _ (removelast wd) [] f1 HRp) in M. subst f1.
+    rewrite path_eqb_refl in H. cbn [negb andb] in H.
+    rewrite (write_at_real _ wd w 438 HRwd) in H. injection H as <- _. now apply Keeps_refl.
+Qed.
+
+Lemma push_dir_keeps wd pres cwd s title ts es how s' ok :
+  Inv wd (st_fs s) ->
+  push_dir cfg_fixed pres wd cwd s title ts es how = (s', ok) ->
+  Keeps wd (st_fs s) (st_fs s').
+Proof.
+  intros I H. unfold push_dir in H.
+  destruct (existsb (str_eqb title) (st_names s)).
+  { injection H as <- _. now apply Keeps_refl. }
+  destruct (write_path cfg_fixed wd title) as [raw|] eqn:EW.
+  2:{ injection H as <- _. now apply Keeps_refl. }
+  destruct (write_path_fixed _ _ _ EW) as (cl & -> & Hcl).
+  unfold cached, remember in H. cbn [fixK cfg_fixed negb andb] in H.
+  rewrite clean_abs_names in H.
+  destruct (strip_prefix wd cl) as [rel|] eqn:SP.
+  2:{ unfold inside in Hcl. rewrite SP in Hcl. discriminate. }
+  apply strip_prefix_spec in SP. subst cl.
+  destruct (ensure_write_dir cfg_fixed wd (st_fs s) (wd ++ rel) (Nms (wd ++ rel))) as [f1|] eqn:M.
+  2:{ injection H as <- _. now apply Keeps_refl. }
+  destruct (ensure_write_dir_below wd _ rel _ f1 I M) as (K1 & R1).
+  destruct (how =? 1)%N; [injection H as <- _; exact K1|].
+  destruct (extract cfg_fixed pres cwd (wd ++ rel) title f1 es ts [] (how =? 2)%N) as [f2 ok2] eqn:EX.
+  injection H as <- _. simpl.
+  eapply Keeps_trans; [exact K1|].
+  apply (extract_keeps wd pres cwd (wd ++ rel) title _ es f1 f2 ok2 ts [] (proj1 K1) Hcl R1 (Forall_nil _) (Forall_nil _) EX).
+Qed.
+
+(* restoreDuplicates: every restored layer is an ordinary named-blob push in the current tree *)
+Lemma restore_layers_keeps wd : forall layers s s' ok,
+  Inv wd (st_fs s) ->
+  restore_layers cfg_fixed wd s layers = (s', ok) ->
+  Keeps wd (st_fs s) (st_fs s').
+Proof.
+  induction layers as [|[t c] r IH]; intros s s' ok I H.
+  - injection H as <- _. now apply Keeps_refl.
+  - cbn [restore_layers] in H. destruct t as [|t0 tt]; [now apply (IH s s' ok)|].
+    destruct (existsb (str_eqb (t0 :: tt)) (st_names s)); [now apply (IH s s' ok)|].
+    destruct (fetch s c) as [| |c']; [now apply (IH s s' ok) | injection H as <- _; now apply Keeps_refl |].
+    destruct (push_blob cfg_fixed wd s (t0 :: tt) c' ((c' =? c)%N && negb (c =? 0)%N)) as [s1 ok1] eqn:P.
+    pose proof (push_blob_keeps _ _ _ _ _ _ _ I P) as K1.
+    destruct ok1.
+    + eapply Keeps_trans; [exact K1|]. apply (IH s1 s' ok (proj1 K1) H).
+    + injection H as <- _. exact K1.
+Qed.
+
 Lemma push_keeps wd pres cwd s o s' ok :
   Inv wd (st_fs s) ->
   push cfg_fixed pres wd cwd s o = (s', ok) ->
   Keeps wd (st_fs s) (st_fs s').
 Proof.
-  intros I H. unfold push in H.
-  destruct (push_title o) as [|t0 tt] eqn:ET.
-  { destruct o as [t c|t ts es]; [|injection H as <- _; now apply Keeps_refl].
-    destruct (existsb (str_eqb [0%N; c]) (st_names s)); injection H as <- _; now apply Keeps_refl. }
-  rewrite <- ET in H.
-  destruct (existsb (str_eqb (push_title o)) (st_names s)).
-  { injection H as <- _. now apply Keeps_refl. }
-  destruct (write_path cfg_fixed wd (push_title o)) as [raw|] eqn:EW.
-  2:{ injection H as <- _. now apply Keeps_refl. }
-  assert (Hraw : exists cl, raw = Nms cl /\ inside wd cl = true).
-  { unfold write_path in EW. cbn [fixA cfg_fixed] in EW.
-    match type of EW with (if inside wd ?c then _ else _) = _ => destruct (inside wd c) eqn:Ein; [|discriminate] end.
-    injection EW as <-. eexists. split; [reflexivity | exact Ein]. }
-  destruct Hraw as (cl & -> & Hcl).
-  cbn [fixN fixW cfg_fixed] in H.
-  pose proof (RealD_inv _ _ I) as HRwd.
-  destruct o as [t c|t ts es]; cbn [push_title] in *.
-  - rewrite removelast_Nms, !clean_abs_names in H.
-    destruct (strip_prefix wd (removelast cl)) as [rel|] eqn:SP.
-    + apply strip_prefix_spec in SP.
-      destruct (mkdir_all (st_fs s) (Nms wd) 511) as [f0|] eqn:M0.
-      2:{ injection H as <- _. now apply Keeps_refl. }
-      unfold mkdir_all in M0. apply (mkdir_prefixes_noop (st_fs s) 511 wd [] f0 HRwd) in M0. subst f0.
-      destruct (mkdir_real (st_fs s) wd rel 511) as [f1|] eqn:M.
-      2:{ injection H as <- _. now apply Keeps_refl. }
-      destruct (mkdir_real_lex wd 511 rel wd _ f1 I (inside_refl wd) HRwd M) as (K1 & R1 & _).
-      rewrite <- SP in R1.
-      pose proof (lexreal_of_parent _ _ R1) as HL1.
-      destruct (path_eqb cl wd) eqn:Hclwd; cbn [negb andb] in H.
-      { (* the title denotes the working directory itself: os.Create fails on the directory *)
-        apply path_eqb_spec in Hclwd. subst cl.
-        rewrite (write_at_real f1 wd c 438 (RealD_inv _ _ (proj1 K1))) in H. injection H as <- _. exact K1. }
-      destruct (unlink_if_symlink f1 cl) as [f1'|] eqn:U.
-      2:{ injection H as <- _. exact K1. }
-      destruct (unlink_if_lex wd cl f1 f1' (proj1 K1) Hcl HL1 U) as (K2 & O2 & N2).
-      assert (K12 : Keeps wd (st_fs s) f1') by (eapply Keeps_trans; eauto).
-      assert (HL2 : lexreal f1' [] cl = true) by (rewrite (lexreal_only_at _ _ _ O2); exact HL1).
-      destruct (write_at f1' (Nms cl) c 438) as [f2|] eqn:Wr.
-      * destruct (write_at_lex wd cl c 438 f1' f2 (proj1 K2) Hcl HL2 N2 Wr) as (K3 & O3 & (i3 & L3)).
-        assert (K13 : Keeps wd (st_fs s) f2) by (eapply Keeps_trans; eauto).
-        destruct c as [|cp]; [|injection H as <- _; exact K13].
-        destruct (remove_at f2 cl) as [f3|] eqn:Rm; injection H as <- _; [|exact K13]. simpl.
-        assert (Hne : cl <> []).
-        { intros ->. rewrite (write_at_real f1' [] 0%N 438) in Wr; [discriminate|].
-          intros q r E Hq. destruct q; [contradiction | discriminate]. }
-        assert (Hs : sinside wd cl) by (eapply inside_sinside; [exact (proj1 K3) | exact Hcl | exact Hne | rewrite L3; discriminate]).
-        assert (HL3 : lexreal f2 [] cl = true) by (rewrite (lexreal_only_at _ _ _ O3); exact HL2).
-        destruct (remove_at_lex wd cl f2 f3 (proj1 K3) Hs HL3 Rm) as (_ & K4 & _).
-        eapply Keeps_trans; eauto.
-      * injection H as <- _. exact K12.
-    + destruct (parent_outside wd cl Hcl SP) as [-> Hwd].
-      assert (HRp : RealD (st_fs s) [] (removelast wd)).
-      { apply (RealD_prefix _ (removelast wd) [last wd []]). rewrite <- app_removelast_last by exact Hwd. exact HRwd. }
-      destruct (mkdir_all (st_fs s) (Nms (removelast wd)) 511) as [f1|] eqn:M.
-      2:{ injection H as <- _. now apply Keeps_refl. }
-      unfold mkdir_all in M.
-      apply (mkdir_prefixes_noop (st_fs s) 511 (removelast wd) [] f1 HRp) in M. subst f1.
-      rewrite path_eqb_refl in H. cbn [negb andb] in H.
-      rewrite (write_at_real _ wd c 438 HRwd) in H. injection H as <- _. now apply Keeps_refl.
-  - rewrite clean_abs_names in H.
-    destruct (strip_prefix wd cl) as [rel|] eqn:SP.
-    2:{ unfold inside in Hcl. rewrite SP in Hcl. discriminate. }
-    apply strip_prefix_spec in SP.
-    destruct (mkdir_all (st_fs s) (Nms wd) 511) as [f0|] eqn:M0.
-    2:{ injection H as <- _. now apply Keeps_refl. }
-    unfold mkdir_all in M0. apply (mkdir_prefixes_noop (st_fs s) 511 wd [] f0 HRwd) in M0. subst f0.
-    destruct (mkdir_real (st_fs s) wd rel 511) as [f1|] eqn:M.
-    2:{ injection H as <- _. now apply Keeps_refl. }
-    destruct (mkdir_real_lex wd 511 rel wd _ f1 I (inside_refl wd) HRwd M) as (K1 & R1 & _).
-    rewrite <- SP in R1.
-    destruct (extract cfg_fixed pres cwd cl t f1 es ts []) as [f2 ok2] eqn:EX.
-    injection H as <- _. simpl.
-    eapply Keeps_trans; [exact K1|].
-    apply (extract_keeps wd pres cwd cl t es f1 f2 ok2 ts [] (proj1 K1) Hcl R1 (Forall_nil _) (Forall_nil _) EX).
+  intros I H. unfold push in H. destruct o as [t c|t ts es|layers|how t ts es].
+  - destruct t as [|t0 tt].
+    + destruct ((c =? 0)%N || existsb (str_eqb [0%N; c]) (st_names s)); injection H as <- _; now apply Keeps_refl.
+    + eapply push_blob_keeps; eauto.
+  - destruct t as [|t0 tt].
+    + injection H as <- _. now apply Keeps_refl.
+    + eapply push_dir_keeps; eauto.
+  - destruct (existsb (str_eqb (manifest_marker layers)) (st_names s)).
+    + injection H as <- _. now apply Keeps_refl.
+    + apply (restore_layers_keeps wd layers (mkStore (st_fs s) (manifest_marker layers :: st_names s) (st_d2p s)) s' ok I H).
+  - destruct t as [|t0 tt].
+    + injection H as <- _. now apply Keeps_refl.
+    + eapply push_dir_keeps; eauto.
 Qed.
 
 Lemma pushes_keeps wd pres cwd : forall os s s' oks,
@@ -1180,10 +1319,16 @@ Lemma push_outside_title g pres wd cwd s o :
   inside wd (lex_loc wd (push_title o)) = false -> push_title o <> [] ->
   push g pres wd cwd s o = (s, false).
 Proof.
-  intros H Hne. unfold push. destruct (push_title o) as [|t0 tt] eqn:ET; [contradiction|].
-  rewrite <- ET in *. destruct (existsb (str_eqb (push_title o)) (st_names s)); [reflexivity|].
-  destruct (write_path g wd (push_title o)) as [raw|] eqn:EW; [|reflexivity].
-  apply write_path_lex in EW as [E _]. congruence.
+  assert (D : forall t ts es how, t <> [] -> inside wd (lex_loc wd t) = false ->
+              push_dir g pres wd cwd s t ts es how = (s, false)).
+  { intros t ts es how _ Ho. unfold push_dir. destruct (existsb (str_eqb t) (st_names s)); [reflexivity|].
+    destruct (write_path g wd t) as [raw|] eqn:EW; [|reflexivity].
+    apply write_path_lex in EW as [E _]. congruence. }
+  intros H Hne. unfold push. destruct o as [t c|t ts es|layers|how t ts es]; cbn [push_title] in *; try contradiction;
+    (destruct t as [|t0 tt]; [contradiction|]); try (apply D; assumption).
+  - unfold push_blob. destruct (existsb (str_eqb (t0 :: tt)) (st_names s)); [reflexivity|].
+    destruct (write_path g wd (t0 :: tt)) as [raw|] eqn:EW; [|reflexivity].
+    apply write_path_lex in EW as [E _]. congruence.
 Qed.
 
 (* an accepted entry name denotes a location below the unpack directory *)
@@ -1209,9 +1354,9 @@ Proof.
   apply entry_rel_inside in E. rewrite E, inside_app in He; [discriminate | exact Ht].
 Qed.
 
-Lemma extract_stops g pres cwd dp dirName e es2 : forall es1 f ts (dirs : list (path * N)),
+Lemma extract_stops g pres cwd dp dirName e es2 trunc : forall es1 f ts (dirs : list (path * N)),
   (forall f0 t, extract_entry g pres cwd dp dirName f0 e t = None) ->
-  snd (extract g pres cwd dp dirName f (es1 ++ e :: es2) ts dirs) = false.
+  snd (extract g pres cwd dp dirName f (es1 ++ e :: es2) ts dirs trunc) = false.
 Proof.
   induction es1 as [|e1 es1 IH]; intros f ts dirs H; cbn [app extract].
   - now rewrite H.
@@ -1256,7 +1401,7 @@ Proof.
 Qed.
 
 Definition run0 (g : cfg) (os : list pushop) : fsys * list bool :=
-  let '(s, oks) := pushes g false wd0 cwd0 (mkStore fs0 []) os in (st_fs s, oks).
+  let '(s, oks) := pushes g false wd0 cwd0 (mkStore fs0 [] []) os in (st_fs s, oks).
 
 Definition escapes (g : cfg) : Prop :=
   exists os p, inside wd0 p = false /\ view_at (fst (run0 g os)) p <> view_at fs0 p.
@@ -1267,7 +1412,7 @@ Ltac escape_with os p :=
 (* F10: hard link whose relative target is taken from the process's current directory *)
 Definition os_hardlink_cwd : list pushop :=
   [PDir (b "t") [] [EHard (b "t/h") (b "secret"); EReg (b "t/h") 7%N 420%N]].
-Lemma refuted_hardlink_cwd : escapes (mkCfg false true true true true true).
+Lemma refuted_hardlink_cwd : escapes (mkCfg false true true true true true true).
 Proof. escape_with os_hardlink_cwd [b "c"; b "secret"]. Qed.
 
 (* F11: the raw link target is lexically inside and physically outside; a regular entry (or a
@@ -1279,9 +1424,9 @@ Definition os_raw_target_blob : list pushop :=
   [PDir (b "t") [] [EDir (b "t/a/b") 493%N; ESym (b "t/a/b/s") (b "../..");
                  ESym (b "t/l") (b "a/b/s/../../../victim")];
    PBlob (b "t/l") 7%N].
-Lemma refuted_write_through_link : escapes (mkCfg true true true true false true).
+Lemma refuted_write_through_link : escapes (mkCfg true true true true false true true).
 Proof. escape_with os_raw_target [b "victim"]. Qed.
-Lemma refuted_blob_through_link : escapes (mkCfg true true true true false true).
+Lemma refuted_blob_through_link : escapes (mkCfg true true true true false true true).
 Proof. escape_with os_raw_target_blob [b "victim"]. Qed.
 
 (* directories created / entered through a link: unpack directory reached through a link
@@ -1289,21 +1434,21 @@ Proof. escape_with os_raw_target_blob [b "victim"]. Qed.
 Definition os_title_through_link : list pushop :=
   [PDir (b ".") [] [ESym (b "./x") (b ".")];
    PDir (b "x") [] [ESym (b "x/l") (b "../x/victim"); EReg (b "x/l") 7%N 420%N]].
-Lemma refuted_title_through_link : escapes (mkCfg true true true false false true).
+Lemma refuted_title_through_link : escapes (mkCfg true true true false false true true).
 Proof. escape_with os_title_through_link [b "r"; b "x"; b "victim"]. Qed.
 
 (* named blob below a link (here a hard link to a link, which sits at another depth) *)
 Definition os_hardlink_symlink : list pushop :=
   [PDir (b "t") [] [EDir (b "t/b/c") 493%N; ESym (b "t/b/c/s") (b "../.."); EHard (b "t/h") (b "b/c/s")];
    PBlob (b "t/h/victim") 7%N].
-Lemma refuted_dir_through_link : escapes (mkCfg true true true false true true).
+Lemma refuted_dir_through_link : escapes (mkCfg true true true false true true true).
 Proof. escape_with os_hardlink_symlink [b "r"; b "victim"]. Qed.
 
 (* absolute title used raw: ".." after a store link *)
 Definition os_abs_title : list pushop :=
   [PDir (b "t") [] [EDir (b "t/b") 493%N; ESym (b "t/b/s") (b "..")];
    PBlob (b "/r/w/t/b/s/../../../victim") 7%N].
-Lemma refuted_abs_title : escapes (mkCfg true false true true true true).
+Lemma refuted_abs_title : escapes (mkCfg true false true true true true true).
 Proof. escape_with os_abs_title [b "victim"]. Qed.
 
 Lemma prefix_escapes : escapes cfg_prefix.
@@ -1332,8 +1477,8 @@ Lemma attacks_confined_fixed :
   forall p, inside wd0 p = false -> view_at (fst (run0 cfg_fixed os)) p = view_at fs0 p.
 Proof.
   intros os Hin p Hp. unfold run0.
-  destruct (pushes cfg_fixed false wd0 cwd0 (mkStore fs0 []) os) as [s oks] eqn:E. simpl.
-  apply (proj2 (pushes_keeps wd0 false cwd0 os (mkStore fs0 []) s oks inv_fs0 E) p Hp).
+  destruct (pushes cfg_fixed false wd0 cwd0 (mkStore fs0 [] []) os) as [s oks] eqn:E. simpl.
+  apply (proj2 (pushes_keeps wd0 false cwd0 os (mkStore fs0 [] []) s oks inv_fs0 E) p Hp).
 Qed.
 
 Lemma push_outside_entry g pres wd cwd s title ts es1 e es2 :
@@ -1341,15 +1486,17 @@ Lemma push_outside_entry g pres wd cwd s title ts es1 e es2 :
   inside wd (lex_loc wd (entry_name e)) = false ->
   snd (push g pres wd cwd s (PDir title ts (es1 ++ e :: es2))) = false.
 Proof.
-  intros Hne He. unfold push. cbn [push_title].
-  destruct title as [|t0 tt] eqn:ET; [contradiction|]. rewrite <- ET in *.
+  intros Hne He. unfold push. destruct title as [|t0 tt] eqn:ET; [contradiction|]. rewrite <- ET in *.
+  unfold push_dir.
   destruct (existsb (str_eqb title) (st_names s)); [reflexivity|].
   destruct (write_path g wd title) as [raw|] eqn:EW; [|reflexivity].
   apply write_path_lex in EW as [Hin ->].
   match goal with |- snd (match ?m with Some _ => _ | None => _ end) = _ => destruct m as [f1|] end; [|reflexivity].
-  pose proof (extract_stops g pres cwd (lex_loc wd title) title e es2 es1 f1 ts []
+  pose proof (extract_stops g pres cwd (lex_loc wd title) title e es2 false es1 f1 ts []
                 (fun f0 => entry_outside_rejected g pres wd cwd title f0 e Hin He)) as Hs.
-  destruct (extract g pres cwd (lex_loc wd title) title f1 (es1 ++ e :: es2) ts []) as [f2 ok]. simpl in *. exact Hs.
+  change (0 =? 1)%N with false. change (0 =? 2)%N with false. change (0 =? 3)%N with false. cbn [negb andb].
+  destruct (extract g pres cwd (lex_loc wd title) title f1 (es1 ++ e :: es2) ts [] false) as [f2 ok]. simpl in *.
+  rewrite Bool.andb_true_r. exact Hs.
 Qed.
 
 (* the working directory itself stays a real directory *)
@@ -1395,12 +1542,12 @@ Qed.
 Definition os_replace_wd : list pushop := [PDir (b ".") [] [ESym (b ".") (b "w/x")]].
 
 Lemma refuted_replace_wd :
-  lookup (st_fs (fst (pushes (mkCfg true true false true true true) false wd0 cwd0 (mkStore fs1 []) os_replace_wd))) wd0
+  lookup (st_fs (fst (pushes (mkCfg true true false true true true true) false wd0 cwd0 (mkStore fs1 [] []) os_replace_wd))) wd0
   <> Some NDir.
 Proof. vm_compute. discriminate. Qed.
 
 Lemma replace_wd_fixed :
-  pushes cfg_fixed false wd0 cwd0 (mkStore fs1 []) os_replace_wd = (mkStore fs1 [], [false]).
+  pushes cfg_fixed false wd0 cwd0 (mkStore fs1 [] []) os_replace_wd = (mkStore fs1 [] [], [false]).
 Proof. vm_compute. reflexivity. Qed.
 
 (* a directory entry on top of a link, with PreservePermissions: the recorded mode is applied after
@@ -1410,8 +1557,8 @@ Definition os_remode : list pushop :=
                  ESym (b "t/l") (b "a/b/s/../.."); EDir (b "t/e") 448%N; ESym (b "t/e") (b "a/b/s/../..")]].
 
 Lemma remode_skips_links :
-  snd (fst (pushes cfg_fixed true wd0 cwd0 (mkStore fs0 []) os_remode), snd (pushes cfg_fixed true wd0 cwd0 (mkStore fs0 []) os_remode)) = [true] /\
-  view_at (st_fs (fst (pushes cfg_fixed true wd0 cwd0 (mkStore fs0 []) os_remode))) [b "r"] = view_at fs0 [b "r"].
+  snd (fst (pushes cfg_fixed true wd0 cwd0 (mkStore fs0 [] []) os_remode), snd (pushes cfg_fixed true wd0 cwd0 (mkStore fs0 [] []) os_remode)) = [true] /\
+  view_at (st_fs (fst (pushes cfg_fixed true wd0 cwd0 (mkStore fs0 [] []) os_remode))) [b "r"] = view_at fs0 [b "r"].
 Proof. split; vm_compute; reflexivity. Qed.
 
 
@@ -1433,7 +1580,7 @@ Definition os_touch : list pushop :=
   [PDir (b "t") [0%N; 0%N; 77%N]
         [EDir (b "t/a/b") 493%N; ESym (b "t/a/b/s") (b "../.."); ESym (b "t/l") (b "a/b/s/../../../victim")]].
 
-Lemma refuted_touch : escapes (mkCfg true true true true true false).
+Lemma refuted_touch : escapes (mkCfg true true true true true false true).
 Proof. escape_with os_touch [b "victim"]. Qed.
 
 Lemma touch_fixed :
@@ -1519,7 +1666,736 @@ Definition fs2 : fsys :=
 
 Lemma refuted_shared_inode :
   inside wd0 [b "victim"] = false /\
-  snd (pushes cfg_fixed false wd0 cwd0 (mkStore fs2 []) [PBlob (b "old") 7%N]) = [true] /\
-  view_at (st_fs (fst (pushes cfg_fixed false wd0 cwd0 (mkStore fs2 []) [PBlob (b "old") 7%N]))) [b "victim"]
+  snd (pushes cfg_fixed false wd0 cwd0 (mkStore fs2 [] []) [PBlob (b "old") 7%N]) = [true] /\
+  view_at (st_fs (fst (pushes cfg_fixed false wd0 cwd0 (mkStore fs2 [] []) [PBlob (b "old") 7%N]))) [b "victim"]
   <> view_at fs2 [b "victim"].
 Proof. split; [vm_compute; reflexivity|]. split; [vm_compute; reflexivity | vm_compute; discriminate]. Qed.
+
+(* ---------- manifests ---------- *)
+
+(* a layer whose title lexically resolves outside, and whose content the store holds, ends the push
+   of the manifest with an error at that layer, nothing written for it *)
+Lemma manifest_outside_layer_rejected g wd s t c c' r :
+  t <> [] -> existsb (str_eqb t) (st_names s) = false -> fetch s c = FSome c' ->
+  inside wd (lex_loc wd t) = false ->
+  restore_layers g wd s ((t, c) :: r) = (s, false).
+Proof.
+  intros Hne Hex Hf Ho. cbn [restore_layers]. destruct t as [|t0 tt]; [contradiction|].
+  rewrite Hex, Hf. unfold push_blob. rewrite Hex.
+  destruct (write_path g wd (t0 :: tt)) as [raw|] eqn:EW; [|reflexivity].
+  apply write_path_lex in EW as [E _]. congruence.
+Qed.
+
+Definition os_manifest : list pushop :=
+  [PBlob [] 41%N; PBlob (b "n1") 51%N;
+   PManifest [(b "second", 41%N); (b "m/third", 51%N); (b "absent", 43%N); (b "n1", 51%N)];
+   PBlob (b "n1b") 52%N;
+   PManifest [(b "../victim", 41%N)];
+   PManifest [(b "x", 52%N); (b "/victim", 51%N); (b "never", 41%N)]].
+
+Lemma manifest_ok :
+  snd (run0 cfg_fixed os_manifest) = [true; true; true; true; false; false] /\
+  view_at (fst (run0 cfg_fixed os_manifest)) [b "r"; b "w"; b "second"] = VFile (enc 41 420) 0%N /\
+  view_at (fst (run0 cfg_fixed os_manifest)) [b "r"; b "w"; b "m"; b "third"] = VFile (enc 51 420) 0%N /\
+  view_at (fst (run0 cfg_fixed os_manifest)) [b "r"; b "w"; b "absent"] = VNone /\
+  view_at (fst (run0 cfg_fixed os_manifest)) [b "r"; b "w"; b "x"] = VFile (enc 52 420) 0%N /\
+  view_at (fst (run0 cfg_fixed os_manifest)) [b "r"; b "w"; b "never"] = VNone /\
+  view_at (fst (run0 cfg_fixed os_manifest)) [b "victim"] = view_at fs0 [b "victim"].
+Proof. vm_compute. repeat split. Qed.
+
+(* a layer restored from a named file whose content was replaced since: the copy fails verification,
+   the partially written file is removed and the push of the manifest fails *)
+Definition os_manifest_stale : list pushop :=
+  [PBlob (b "n1") 51%N;
+   PDir (b ".") [] [EHard (b "./h") (b "n1"); EReg (b "./h") 54%N 420%N];
+   PManifest [(b "copy", 51%N); (b "later", 51%N)]].
+
+Lemma manifest_stale :
+  snd (run0 cfg_fixed os_manifest_stale) = [true; true; false] /\
+  view_at (fst (run0 cfg_fixed os_manifest_stale)) [b "r"; b "w"; b "n1"] = VFile (enc 54 420) 0%N /\
+  view_at (fst (run0 cfg_fixed os_manifest_stale)) [b "r"; b "w"; b "copy"] = VNone /\
+  view_at (fst (run0 cfg_fixed os_manifest_stale)) [b "r"; b "w"; b "later"] = VNone.
+Proof. vm_compute. repeat split. Qed.
+
+(* ---------- the process's current directory is irrelevant for the repaired store ---------- *)
+
+Lemma do_link_cwd f cwd1 cwd2 fp pn tgt :
+  do_link cfg_fixed f cwd1 fp pn tgt = do_link cfg_fixed f cwd2 fp pn tgt.
+Proof. reflexivity. Qed.
+
+Lemma extract_entry_cwd pres cwd1 cwd2 dp dirName f e t :
+  extract_entry cfg_fixed pres cwd1 dp dirName f e t = extract_entry cfg_fixed pres cwd2 dp dirName f e t.
+Proof. reflexivity. Qed.
+
+Lemma extract_cwd pres cwd1 cwd2 dp dirName trunc : forall es f ts dirs,
+  extract cfg_fixed pres cwd1 dp dirName f es ts dirs trunc = extract cfg_fixed pres cwd2 dp dirName f es ts dirs trunc.
+Proof.
+  induction es as [|e es IH]; intros f ts dirs; [reflexivity|].
+  cbn [extract]. rewrite (extract_entry_cwd pres cwd1 cwd2).
+  destruct (extract_entry cfg_fixed pres cwd2 dp dirName f e (hd 0%N ts)); [apply IH | reflexivity].
+Qed.
+
+Lemma push_cwd pres wd cwd1 cwd2 s o :
+  push cfg_fixed pres wd cwd1 s o = push cfg_fixed pres wd cwd2 s o.
+Proof.
+  assert (D : forall t ts es how, push_dir cfg_fixed pres wd cwd1 s t ts es how = push_dir cfg_fixed pres wd cwd2 s t ts es how).
+  { intros t ts es how. unfold push_dir.
+    destruct (existsb (str_eqb t) (st_names s)); [reflexivity|].
+    destruct (write_path cfg_fixed wd t); [|reflexivity].
+    unfold cached, remember. cbn [fixK cfg_fixed negb andb].
+    destruct (ensure_write_dir cfg_fixed wd (st_fs s) (clean_abs l) l); [|reflexivity].
+    destruct (how =? 1)%N; [reflexivity|]. now rewrite (extract_cwd pres cwd1 cwd2). }
+  destruct o as [t c|t ts es|layers|how t ts es]; try reflexivity;
+    (destruct t as [|t0 tt]; [reflexivity|]); unfold push; apply D.
+Qed.
+
+Lemma pushes_cwd pres wd cwd1 cwd2 : forall os s,
+  pushes cfg_fixed pres wd cwd1 s os = pushes cfg_fixed pres wd cwd2 s os.
+Proof.
+  induction os as [|o os IH]; intros s; [reflexivity|].
+  cbn [pushes]. rewrite (push_cwd pres wd cwd1 cwd2).
+  destruct (push cfg_fixed pres wd cwd2 s o) as [s1 ok]. now rewrite IH.
+Qed.
+
+(* ---------- Lstat at a location whose parents are real directories is a look-up ---------- *)
+
+(* (why the store's Lstat checks are modelled as look-ups at the lexical location) *)
+Lemma lstat_is_lookup f p fuel nl :
+  lexreal f [] p = true ->
+  match walk fuel f nl [] (Nms p) false with
+  | WFile q i => q = p /\ lookup f p = Some (NFile i)
+  | WSym q d a cs => q = p /\ lookup f p = Some (NSym d a cs)
+  | WNoEnt q => q = p /\ lookup f p = None
+  | WDir q => q = p
+  | _ => True
+  end.
+Proof.
+  intro HL. pose proof (walk_lexical f p fuel nl [] HL) as Wl.
+  pose proof (walk_lookup f fuel nl [] (Nms p) false) as Wk.
+  destruct (walk fuel f nl [] (Nms p) false); simpl in *; try exact Logic.I; subst p0;
+    try (destruct Wk as [L _]; split; [reflexivity | exact L]). reflexivity.
+Qed.
+
+(* failing archives: nothing unpacked / unpacked up to the break, modes not restored / everything
+   unpacked but the push fails *)
+Definition os_failing : list pushop :=
+  [PDirF 1 (b "g") [] [EDir (b "g/d") 320%N];
+   PDirF 2 (b "t") [] [EDir (b "t/d") 320%N; EReg (b "t/d/f") 7%N 420%N];
+   PDirF 3 (b "u") [] [EDir (b "u/d") 320%N]].
+
+Lemma failing_ok :
+  snd (run0 cfg_fixed os_failing) = [false; false; false] /\
+  view_at (fst (run0 cfg_fixed os_failing)) [b "r"; b "w"; b "g"] = VDir 493%N 0%N /\
+  view_at (fst (run0 cfg_fixed os_failing)) [b "r"; b "w"; b "g"; b "d"] = VNone /\
+  view_at (fst (run0 cfg_fixed os_failing)) [b "r"; b "w"; b "t"; b "d"] = VDir 448%N 0%N /\
+  view_at (fst (run0 cfg_fixed os_failing)) [b "r"; b "w"; b "t"; b "d"; b "f"] = VFile (enc 7 420) 0%N /\
+  view_at (fst (run0 cfg_fixed os_failing)) [b "r"; b "w"; b "u"; b "d"] = VDir 320%N 0%N.
+Proof. vm_compute. repeat split. Qed.
+
+(* ---------- a working directory that does not exist yet (the first push creates it) ---------- *)
+
+Record Inv0 (wd : path) (f : fsys) : Prop := mkInv0 {
+  inv0_ne : wd <> [];
+  inv0_anc : RealD f [] (removelast wd);
+  inv0_none : forall p, inside wd p = true -> lookup f p = None;
+  inv0_fresh : forall p i, lookup f p = Some (NFile i) -> i < nexti f
+}.
+
+Definition PreInv (wd : path) (f : fsys) : Prop := Inv wd f \/ Inv0 wd f.
+Definition Keeps0 (wd : path) (f f' : fsys) : Prop := PreInv wd f' /\ same_outside wd f f'.
+
+Lemma Keeps0_refl wd f : PreInv wd f -> Keeps0 wd f f.
+Proof. intro H. split; [exact H | apply same_outside_refl]. Qed.
+
+Lemma Keeps_Keeps0 wd f f' : Keeps wd f f' -> Keeps0 wd f f'.
+Proof. intros [I S]. split; [now left | exact S]. Qed.
+
+Lemma Keeps0_trans wd f g h : Keeps0 wd f g -> Keeps0 wd g h -> Keeps0 wd f h.
+Proof. intros [_ A] [I B]. split; [exact I | eapply same_outside_trans; eauto]. Qed.
+
+Lemma wd_snoc (wd : path) : wd <> [] -> wd = removelast wd ++ [last wd []].
+Proof. intro H. now apply app_removelast_last. Qed.
+
+(* creating the working directory *)
+Lemma create_wd wd f m : Inv0 wd f -> Keeps wd f (new_dir wd m f).
+Proof.
+  intros I0. unfold new_dir. split.
+  - constructor.
+    + intros q r E Hq. rewrite lookup_setdmode, lookup_set. destruct (path_eqb wd q) eqn:Eq; [reflexivity|].
+      destruct r as [|x r'] using rev_ind.
+      * rewrite app_nil_r in E. subst q. rewrite path_eqb_refl in Eq. discriminate.
+      * apply (inv0_anc _ _ I0 q r'); [|exact Hq]. rewrite app_assoc in E.
+        rewrite (wd_snoc wd (inv0_ne _ _ I0)) in E at 1. apply app_inj_tail in E as [E _]. exact E.
+    + intros p q i. rewrite !lookup_setdmode, !lookup_set.
+      destruct (path_eqb wd p); [discriminate|]. intros Lp _ Hp. rewrite (inv0_none _ _ I0 p Hp) in Lp. discriminate.
+    + intros p i. rewrite lookup_setdmode, lookup_set. destruct (path_eqb wd p); [discriminate|].
+      apply (inv0_fresh _ _ I0).
+  - intros q Hq. unfold view_at. rewrite lookup_setdmode, lookup_set.
+    rewrite (outside_neq wd wd q (inside_refl wd) Hq).
+    destruct (lookup f q) as [[|j|]|]; try reflexivity.
+    unfold dir_mode, set_dmode, set_ent; simpl. rewrite (outside_neq wd wd q (inside_refl wd) Hq). reflexivity.
+Qed.
+
+(* os.MkdirAll over existing directories, then one missing last element *)
+Lemma mkdir_prefixes_skip f mo : forall t1 d t2,
+  RealD f [] (d ++ t1) ->
+  mkdir_prefixes f (Nms d) (Nms (t1 ++ t2)) mo = mkdir_prefixes f (Nms (d ++ t1)) (Nms t2) mo \/
+  mkdir_prefixes f (Nms d) (Nms (t1 ++ t2)) mo = None.
+Proof.
+  induction t1 as [|c t1 IH]; intros d t2 HR.
+  - left. now rewrite app_nil_r.
+  - cbn [app Nms map mkdir_prefixes]. fold (Nms (t1 ++ t2)). rewrite Nms_snoc.
+    assert (HR1 : RealD f [] (d ++ [c])).
+    { apply (RealD_prefix f (d ++ [c]) t1). now rewrite <- app_assoc. }
+    pose proof (walk_real f (d ++ [c]) FUEL NLINK [] true HR1) as W1.
+    pose proof (walk_real f (d ++ [c]) FUEL NLINK [] false HR1) as W2.
+    destruct (walk FUEL f NLINK [] (Nms (d ++ [c])) true); try contradiction.
+    + specialize (IH (d ++ [c]) t2). rewrite <- !app_assoc in IH. simpl in IH. apply IH. exact HR.
+    + right. destruct (walk FUEL f NLINK [] (Nms (d ++ [c])) false); try contradiction; reflexivity.
+Qed.
+
+Lemma walk_at_none f : forall ns fuel nl cur follow,
+  lexreal f cur ns = true -> ns <> [] -> lookup f (cur ++ ns) = None ->
+  match walk fuel f nl cur (Nms ns) follow with
+  | WNoEnt p => p = cur ++ ns
+  | WErrNoEnt => True
+  | WErr => True
+  | _ => False
+  end.
+Proof.
+  induction ns as [|c r IH]; intros fuel nl cur follow HL Hne Ln; [contradiction|].
+  destruct fuel as [|fuel]; [exact Logic.I|]. simpl. simpl in HL.
+  destruct r as [|c2 r'].
+  - rewrite Ln. reflexivity.
+  - destruct (lookup f (cur ++ [c])) as [[|i|d a cs]|] eqn:L; try exact Logic.I; try discriminate.
+    specialize (IH fuel nl (cur ++ [c]) follow HL). rewrite <- app_assoc in IH.
+    apply IH; [discriminate | exact Ln].
+Qed.
+
+Lemma mkdir_all_creates_wd wd f mo f0 :
+  Inv0 wd f -> mkdir_all f (Nms wd) mo = Some f0 -> f0 = new_dir wd mo f.
+Proof.
+  intros I0 H. unfold mkdir_all in H.
+  pose proof (inv0_ne _ _ I0) as Hne.
+  rewrite (wd_snoc wd Hne) in H.
+  destruct (mkdir_prefixes_skip f mo (removelast wd) [] [last wd []]) as [E|E].
+  - simpl. exact (inv0_anc _ _ I0).
+  - simpl app in E. change (Nms []) with (@nil comp) in E. rewrite E in H.
+    cbn [Nms map mkdir_prefixes] in H. fold (Nms (removelast wd)) in H.
+    rewrite Nms_snoc, <- (wd_snoc wd Hne) in H.
+    assert (HL : lexreal f [] wd = true) by (apply lexreal_of_parent; exact (inv0_anc _ _ I0)).
+    assert (Ln : lookup f wd = None) by (apply (inv0_none _ _ I0); apply inside_refl).
+    pose proof (walk_at_none f wd FUEL NLINK [] true HL Hne Ln) as W1.
+    pose proof (walk_at_none f wd FUEL NLINK [] false HL Hne Ln) as W2.
+    assert (Hsecond : match walk FUEL f NLINK [] (Nms wd) false with
+                      | WNoEnt p => mkdir_prefixes (new_dir p mo f) (Nms wd) [] mo | _ => None end = Some f0 ->
+                      f0 = new_dir wd mo f).
+    { destruct (walk FUEL f NLINK [] (Nms wd) false) as [| | |q| |]; try contradiction; try discriminate.
+      simpl in W2. subst q. simpl. now intros [= <-]. }
+    destruct (walk FUEL f NLINK [] (Nms wd) true); try contradiction; apply Hsecond; exact H.
+  - simpl app in E. change (Nms []) with (@nil comp) in E. rewrite E in H. discriminate.
+Qed.
+
+Lemma ensure_write_dir_below0 wd f rel rawdir f1 :
+  PreInv wd f -> ensure_write_dir cfg_fixed wd f (wd ++ rel) rawdir = Some f1 ->
+  Keeps wd f f1 /\ RealD f1 [] (wd ++ rel).
+Proof.
+  intros [I|I0] H; [now apply (ensure_write_dir_below wd f rel rawdir f1 I)|].
+  unfold ensure_write_dir in H. cbn [fixN cfg_fixed] in H.
+  assert (SP : strip_prefix wd (wd ++ rel) = Some rel) by now apply strip_prefix_spec.
+  rewrite SP in H.
+  destruct (mkdir_all f (Nms wd) c11_write_dir_perm) as [f0|] eqn:M0; [|discriminate].
+  apply (mkdir_all_creates_wd wd f _ f0 I0) in M0. subst f0.
+  pose proof (create_wd wd f c11_write_dir_perm I0) as K0.
+  destruct (mkdir_real_lex wd _ rel wd _ f1 (proj1 K0) (inside_refl wd) (RealD_inv _ _ (proj1 K0)) H) as (K1 & R1 & _).
+  split; [eapply Keeps_trans; eauto | exact R1].
+Qed.
+
+(* no title denotes the (missing) working directory itself *)
+Definition title_ok (wd : path) (t : str) : Prop := t = [] \/ lex_loc wd t <> wd.
+
+Definition op_ok (wd : path) (o : pushop) : Prop :=
+  match o with
+  | PBlob t _ => title_ok wd t
+  | PDir t _ _ => title_ok wd t
+  | PDirF _ t _ _ => title_ok wd t
+  | PManifest ls => Forall (fun l => title_ok wd (fst l)) ls
+  end.
+
+Lemma push_blob_keeps0 wd s title w good s' ok :
+  PreInv wd (st_fs s) -> lex_loc wd title <> wd ->
+  push_blob cfg_fixed wd s title w good = (s', ok) ->
+  Keeps0 wd (st_fs s) (st_fs s').
+Proof.
+  intros I Hcw H. unfold push_blob in H.
+  destruct (existsb (str_eqb title) (st_names s)).
+  { injection H as <- _. now apply Keeps0_refl. }
+  destruct (write_path cfg_fixed wd title) as [raw|] eqn:EW.
+  2:{ injection H as <- _. now apply Keeps0_refl. }
+  pose proof (write_path_lex _ _ _ _ EW) as [_ Ecl].
+  destruct (write_path_fixed _ _ _ EW) as (cl & -> & Hcl).
+  rewrite clean_abs_names in Ecl. rewrite <- Ecl in Hcw. clear Ecl.
+  unfold cached, remember in H. cbn [fixW fixK cfg_fixed negb andb] in H.
+  rewrite removelast_Nms, !clean_abs_names in H.
+  destruct (strip_prefix wd (removelast cl)) as [rel|] eqn:SP.
+  2:{ destruct (parent_outside wd cl Hcl SP) as [E _]. contradiction. }
+  apply strip_prefix_spec in SP. rewrite SP in H.
+  destruct (ensure_write_dir cfg_fixed wd (st_fs s) (wd ++ rel) (Nms (wd ++ rel))) as [f1|] eqn:M.
+  2:{ injection H as <- _. now apply Keeps0_refl. }
+  destruct (ensure_write_dir_below0 wd _ rel _ f1 I M) as (K1 & R1).
+  rewrite <- SP in R1.
+  pose proof (lexreal_of_parent _ _ R1) as HL1.
+  rewrite (path_eqb_neq cl wd Hcw) in H. cbn [negb andb] in H.
+  destruct (unlink_if_symlink f1 cl) as [f1'|] eqn:U.
+  2:{ injection H as <- _. now apply Keeps_Keeps0. }
+  destruct (unlink_if_lex wd cl f1 f1' (proj1 K1) Hcl HL1 U) as (K2 & O2 & N2).
+  assert (K12 : Keeps wd (st_fs s) f1') by (eapply Keeps_trans; eauto).
+  assert (HL2 : lexreal f1' [] cl = true) by (rewrite (lexreal_only_at _ _ _ O2); exact HL1).
+  destruct (write_at f1' (Nms cl) w 438) as [f2|] eqn:Wr.
+  - destruct (write_at_lex wd cl w 438 f1' f2 (proj1 K2) Hcl HL2 N2 Wr) as (K3 & O3 & (i3 & L3)).
+    assert (K13 : Keeps wd (st_fs s) f2) by (eapply Keeps_trans; eauto).
+    destruct good; [injection H as <- _; now apply Keeps_Keeps0|].
+    destruct (remove_at f2 cl) as [f3|] eqn:Rm; injection H as <- _; [|now apply Keeps_Keeps0]. simpl.
+    assert (Hne : cl <> []).
+    { intros ->. rewrite (write_at_real f1' [] w 438) in Wr; [discriminate|].
+      intros q r E Hq. destruct q; [contradiction | discriminate]. }
+    assert (Hs : sinside wd cl) by (eapply inside_sinside; [exact (proj1 K3) | exact Hcl | exact Hne | rewrite L3; discriminate]).
+    assert (HL3 : lexreal f2 [] cl = true) by (rewrite (lexreal_only_at _ _ _ O3); exact HL2).
+    destruct (remove_at_lex wd cl f2 f3 (proj1 K3) Hs HL3 Rm) as (_ & K4 & _).
+    apply Keeps_Keeps0. eapply Keeps_trans; eauto.
+  - injection H as <- _. now apply Keeps_Keeps0.
+Qed.
+
+Lemma push_dir_keeps0 wd pres cwd s title ts es how s' ok :
+  PreInv wd (st_fs s) ->
+  push_dir cfg_fixed pres wd cwd s title ts es how = (s', ok) ->
+  Keeps0 wd (st_fs s) (st_fs s').
+Proof.
+  intros I H. unfold push_dir in H.
+  destruct (existsb (str_eqb title) (st_names s)).
+  { injection H as <- _. now apply Keeps0_refl. }
+  destruct (write_path cfg_fixed wd title) as [raw|] eqn:EW.
+  2:{ injection H as <- _. now apply Keeps0_refl. }
+  destruct (write_path_fixed _ _ _ EW) as (cl & -> & Hcl).
+  unfold cached, remember in H. cbn [fixK cfg_fixed negb andb] in H.
+  rewrite clean_abs_names in H.
+  destruct (strip_prefix wd cl) as [rel|] eqn:SP.
+  2:{ unfold inside in Hcl. rewrite SP in Hcl. discriminate. }
+  apply strip_prefix_spec in SP. subst cl.
+  destruct (ensure_write_dir cfg_fixed wd (st_fs s) (wd ++ rel) (Nms (wd ++ rel))) as [f1|] eqn:M.
+  2:{ injection H as <- _. now apply Keeps0_refl. }
+  destruct (ensure_write_dir_below0 wd _ rel _ f1 I M) as (K1 & R1).
+  destruct (how =? 1)%N; [injection H as <- _; now apply Keeps_Keeps0|].
+  destruct (extract cfg_fixed pres cwd (wd ++ rel) title f1 es ts [] (how =? 2)%N) as [f2 ok2] eqn:EX.
+  injection H as <- _. simpl. apply Keeps_Keeps0.
+  eapply Keeps_trans; [exact K1|].
+  apply (extract_keeps wd pres cwd (wd ++ rel) title _ es f1 f2 ok2 ts [] (proj1 K1) Hcl R1 (Forall_nil _) (Forall_nil _) EX).
+Qed.
+
+Lemma restore_layers_keeps0 wd : forall layers s s' ok,
+  PreInv wd (st_fs s) -> Forall (fun l => title_ok wd (fst l)) layers ->
+  restore_layers cfg_fixed wd s layers = (s', ok) ->
+  Keeps0 wd (st_fs s) (st_fs s').
+Proof.
+  induction layers as [|[t c] r IH]; intros s s' ok I Hok H.
+  - injection H as <- _. now apply Keeps0_refl.
+  - cbn [restore_layers] in H. inversion Hok as [|? ? Ht Hr]; subst. simpl in Ht.
+    destruct t as [|t0 tt]; [now apply (IH s s' ok)|].
+    destruct (existsb (str_eqb (t0 :: tt)) (st_names s)); [now apply (IH s s' ok)|].
+    destruct (fetch s c) as [| |c']; [now apply (IH s s' ok) | injection H as <- _; now apply Keeps0_refl |].
+    destruct (push_blob cfg_fixed wd s (t0 :: tt) c' ((c' =? c)%N && negb (c =? 0)%N)) as [s1 ok1] eqn:P.
+    assert (Hcw : lex_loc wd (t0 :: tt) <> wd) by (destruct Ht as [E|E]; [discriminate | exact E]).
+    pose proof (push_blob_keeps0 _ _ _ _ _ _ _ I Hcw P) as K1.
+    destruct ok1.
+    + eapply Keeps0_trans; [exact K1|]. apply (IH s1 s' ok (proj1 K1) Hr H).
+    + injection H as <- _. exact K1.
+Qed.
+
+Lemma push_keeps0 wd pres cwd s o s' ok :
+  PreInv wd (st_fs s) -> op_ok wd o ->
+  push cfg_fixed pres wd cwd s o = (s', ok) ->
+  Keeps0 wd (st_fs s) (st_fs s').
+Proof.
+  intros I Hok H. unfold push in H. destruct o as [t c|t ts es|layers|how t ts es]; simpl in Hok.
+  - destruct t as [|t0 tt].
+    + destruct ((c =? 0)%N || existsb (str_eqb [0%N; c]) (st_names s)); injection H as <- _; now apply Keeps0_refl.
+    + destruct Hok as [E|E]; [discriminate|]. eapply push_blob_keeps0; eauto.
+  - destruct t as [|t0 tt].
+    + injection H as <- _. now apply Keeps0_refl.
+    + eapply push_dir_keeps0; eauto.
+  - destruct (existsb (str_eqb (manifest_marker layers)) (st_names s)).
+    + injection H as <- _. now apply Keeps0_refl.
+    + apply (restore_layers_keeps0 wd layers (mkStore (st_fs s) (manifest_marker layers :: st_names s) (st_d2p s)) s' ok I Hok H).
+  - destruct t as [|t0 tt].
+    + injection H as <- _. now apply Keeps0_refl.
+    + eapply push_dir_keeps0; eauto.
+Qed.
+
+Lemma pushes_keeps0 wd pres cwd : forall os s s' oks,
+  PreInv wd (st_fs s) -> Forall (op_ok wd) os ->
+  pushes cfg_fixed pres wd cwd s os = (s', oks) ->
+  Keeps0 wd (st_fs s) (st_fs s').
+Proof.
+  induction os as [|o os IH]; intros s s' oks I Hok H.
+  - injection H as <- _. now apply Keeps0_refl.
+  - cbn [pushes] in H. inversion Hok as [|? ? Ho Hos]; subst.
+    destruct (push cfg_fixed pres wd cwd s o) as [s1 ok] eqn:P.
+    destruct (pushes cfg_fixed pres wd cwd s1 os) as [s2 oks2] eqn:Ps.
+    injection H as <- _.
+    pose proof (push_keeps0 _ _ _ _ _ _ _ I Ho P) as K1.
+    eapply Keeps0_trans; [exact K1|]. eapply IH; eauto. exact (proj1 K1).
+Qed.
+
+(* the hypothesis is satisfiable: a tree in which the working directory does not exist yet *)
+Definition fs3 : fsys :=
+  mkFS [ ([b "r"], NDir); ([b "victim"], NFile 0) ] [ (0, 100%N) ] 1 [] [] [].
+
+Lemma inv0_fs3 : Inv0 wd0 fs3.
+Proof.
+  constructor.
+  - discriminate.
+  - intros q r E Hq. destruct q as [|q1 [|q2 q']]; [contradiction | |].
+    + injection E as <- _. reflexivity.
+    + apply (f_equal (@length _)) in E. simpl in E. rewrite app_length in E. simpl in E. lia.
+  - intros p Hp. apply inside_spec in Hp as [r ->]. reflexivity.
+  - intros p i H. change (nexti fs3) with 1. unfold lookup, fs3 in H. cbn [ents lookup_ents] in H.
+    repeat match type of H with
+           | (if ?c then _ else _) = _ =>
+             destruct c; [first [discriminate H | (injection H as H; subst i; lia)] |]
+           end. discriminate.
+Qed.
+
+Definition os_first_push : list pushop :=
+  [PBlob (b "../victim") 5%N; PDir (b "t") [] [EDir (b "t/a") 493%N; EReg (b "t/a/f") 7%N 420%N]; PBlob (b "x") 8%N].
+
+Lemma first_push_ok :
+  snd (pushes cfg_fixed false wd0 cwd0 (mkStore fs3 [] []) os_first_push) = [false; true; true] /\
+  lookup (st_fs (fst (pushes cfg_fixed false wd0 cwd0 (mkStore fs3 [] []) os_first_push))) wd0 = Some NDir /\
+  view_at (st_fs (fst (pushes cfg_fixed false wd0 cwd0 (mkStore fs3 [] []) os_first_push))) [b "victim"] = view_at fs3 [b "victim"].
+Proof. vm_compute. repeat split. Qed.
+
+(* the seeded change C11-r3m2 as a model variant (fixK = false): remembering that a directory was
+   already checked is unsound, because a later archive can replace the (empty) directory by a link;
+   every write has to walk its path again in the current tree *)
+Definition os_cached_dir : list pushop :=
+  [PDir (b "a/e") [] [EDir (b "a/e") 493%N];
+   PDir (b "a") [] [ESym (b "a/p") (b "."); ESym (b "a/q") (b "p/.."); ESym (b "a/e") (b "q/..")];
+   PBlob (b "a/e/victim") 22%N].
+
+Lemma refuted_cached_dir : escapes (mkCfg true true true true true true false).
+Proof. escape_with os_cached_dir [b "r"; b "victim"]. Qed.
+
+Lemma cached_dir_fixed :
+  snd (run0 cfg_fixed os_cached_dir) = [true; true; false] /\
+  view_at (fst (run0 cfg_fixed os_cached_dir)) [b "r"; b "victim"] = view_at fs0 [b "r"; b "victim"] /\
+  view_at (fst (run0 cfg_fixed os_cached_dir)) [b "r"; b "w"; b "a"; b "e"] = VSym (b "q/..").
+Proof. vm_compute. repeat split. Qed.
+
+(* ---------- a regular file where the working directory should be ---------- *)
+(* (a named blob whose title denotes the not yet existing working directory creates it) *)
+
+Lemma walk_at_file f i : forall ns fuel nl cur follow,
+  lexreal f cur ns = true -> ns <> [] -> lookup f (cur ++ ns) = Some (NFile i) ->
+  match walk fuel f nl cur (Nms ns) follow with
+  | WFile p j => p = cur ++ ns /\ j = i
+  | WErrNoEnt => True
+  | WErr => True
+  | _ => False
+  end.
+Proof.
+  induction ns as [|c r IH]; intros fuel nl cur follow HL Hne Lf; [contradiction|].
+  destruct fuel as [|fuel]; [exact Logic.I|]. simpl. simpl in HL.
+  destruct r as [|c2 r'].
+  - rewrite Lf. split; reflexivity.
+  - destruct (lookup f (cur ++ [c])) as [[|i0|d a cs]|] eqn:L; try exact Logic.I; try discriminate.
+    specialize (IH fuel nl (cur ++ [c]) follow HL). rewrite <- app_assoc in IH.
+    apply IH; [discriminate | exact Lf].
+Qed.
+
+Record InvF (wd : path) (f : fsys) : Prop := mkInvF {
+  invF_ne : wd <> [];
+  invF_anc : RealD f [] (removelast wd);
+  invF_file : exists i, lookup f wd = Some (NFile i) /\ forall q, lookup f q = Some (NFile i) -> q = wd;
+  invF_none : forall p, sinside wd p -> lookup f p = None;
+  invF_fresh : forall p i, lookup f p = Some (NFile i) -> i < nexti f
+}.
+
+Definition PreInv3 (wd : path) (f : fsys) : Prop := Inv wd f \/ Inv0 wd f \/ InvF wd f.
+Definition Keeps3 (wd : path) (f f' : fsys) : Prop := PreInv3 wd f' /\ same_outside wd f f'.
+
+Lemma Keeps3_refl wd f : PreInv3 wd f -> Keeps3 wd f f.
+Proof. intro H. split; [exact H | apply same_outside_refl]. Qed.
+
+Lemma Keeps0_Keeps3 wd f f' : Keeps0 wd f f' -> Keeps3 wd f f'.
+Proof. intros [[I|I] S]; (split; [|exact S]); [left | right; left]; exact I. Qed.
+
+Lemma Keeps3_trans wd f g h : Keeps3 wd f g -> Keeps3 wd g h -> Keeps3 wd f h.
+Proof. intros [_ A] [I B]. split; [exact I | eapply same_outside_trans; eauto]. Qed.
+
+Lemma wd_lexreal wd f : RealD f [] (removelast wd) -> lexreal f [] wd = true.
+Proof. apply lexreal_of_parent. Qed.
+
+(* with a file at the working directory's place nothing below it can be created *)
+Lemma ensure_write_dir_file wd f rel rawdir :
+  InvF wd f -> ensure_write_dir cfg_fixed wd f (wd ++ rel) rawdir = None.
+Proof.
+  intros IF. unfold ensure_write_dir. cbn [fixN cfg_fixed].
+  assert (SP : strip_prefix wd (wd ++ rel) = Some rel) by now apply strip_prefix_spec.
+  rewrite SP. pose proof (invF_ne _ _ IF) as Hne.
+  destruct (invF_file _ _ IF) as (i & Li & _).
+  assert (M : mkdir_all f (Nms wd) c11_write_dir_perm = None).
+  { unfold mkdir_all. rewrite (wd_snoc wd Hne).
+    destruct (mkdir_prefixes_skip f c11_write_dir_perm (removelast wd) [] [last wd []]) as [E|E].
+    - simpl. exact (invF_anc _ _ IF).
+    - simpl app in E. change (Nms []) with (@nil comp) in E. rewrite E.
+      cbn [Nms map mkdir_prefixes]. fold (Nms (removelast wd)). rewrite Nms_snoc, <- (wd_snoc wd Hne).
+      pose proof (wd_lexreal wd f (invF_anc _ _ IF)) as HL.
+      pose proof (walk_at_file f i wd FUEL NLINK [] true HL Hne Li) as W1.
+      pose proof (walk_at_file f i wd FUEL NLINK [] false HL Hne Li) as W2.
+      destruct (walk FUEL f NLINK [] (Nms wd) true); try contradiction; try reflexivity;
+        (destruct (walk FUEL f NLINK [] (Nms wd) false); try contradiction; reflexivity).
+    - simpl app in E. change (Nms []) with (@nil comp) in E. exact E. }
+  rewrite M. reflexivity.
+Qed.
+
+Lemma outside_not_wd (wd q : path) : inside wd q = false -> q <> wd.
+Proof. intros H ->. rewrite inside_refl in H. discriminate. Qed.
+
+Lemma prefix_not_wd (wd q r : path) : wd <> [] -> removelast wd = q ++ r -> q <> wd.
+Proof.
+  intros Hne E ->. apply (f_equal (@length _)) in E. rewrite app_length in E.
+  assert (L : length (removelast wd) < length wd).
+  { rewrite (wd_snoc wd Hne) at 2. rewrite app_length. simpl. lia. }
+  lia.
+Qed.
+
+(* os.Create at the working directory's own path when it is missing or a regular file *)
+Lemma write_wd_keeps3 wd f w f2 :
+  Inv0 wd f \/ InvF wd f -> write_at f (Nms wd) w 438 = Some f2 ->
+  InvF wd f2 /\ same_outside wd f f2.
+Proof.
+  intros [I0|IF] H; unfold write_at in H.
+  - pose proof (inv0_ne _ _ I0) as Hne.
+    assert (HL : lexreal f [] wd = true) by (apply wd_lexreal; exact (inv0_anc _ _ I0)).
+    assert (Ln : lookup f wd = None) by (apply (inv0_none _ _ I0); apply inside_refl).
+    assert (Hns : nosym f wd) by (apply nosym_of_lookup; [exact HL | intros; rewrite Ln; discriminate]).
+    rewrite (walk_follow_agrees f FUEL NLINK [] (Nms wd) Hns) in H.
+    pose proof (walk_at_none f wd FUEL NLINK [] false HL Hne Ln) as W.
+    destruct (walk FUEL f NLINK [] (Nms wd) false); try contradiction; try discriminate.
+    simpl in W. subst p. injection H as <-. split.
+    + constructor.
+      * exact Hne.
+      * intros q r E Hq. simpl. rewrite lookup_newfile, (path_eqb_neq wd q); [apply (inv0_anc _ _ I0 q r E Hq)|].
+        intro E'. apply (prefix_not_wd wd q r Hne E). now symmetry.
+      * exists (nexti f). split; [rewrite lookup_newfile, path_eqb_refl; reflexivity|].
+        intros q. rewrite lookup_newfile. destruct (path_eqb wd q) eqn:Eq; [apply path_eqb_spec in Eq; now intros _|].
+        intro L. apply (inv0_fresh _ _ I0) in L. lia.
+      * intros p Hp. rewrite lookup_newfile, (path_eqb_neq wd p).
+        -- apply (inv0_none _ _ I0). now apply sinside_inside.
+        -- intros ->. destruct Hp as (x & r & E). apply (f_equal (@length _)) in E. rewrite app_length in E. simpl in E. lia.
+      * intros p i. rewrite lookup_newfile. unfold new_file at 1; simpl. destruct (path_eqb wd p).
+        -- intros [= <-]. lia.
+        -- intro L. apply (inv0_fresh _ _ I0) in L. lia.
+    + intros q Hq. unfold view_at. rewrite lookup_newfile, (path_eqb_neq wd q) by (intros ->; rewrite inside_refl in Hq; discriminate).
+      destruct (lookup f q) as [[|j|]|] eqn:E; try reflexivity.
+      f_equal. unfold content, new_file; simpl. destruct (Nat.eqb (nexti f) j) eqn:E2; [|reflexivity].
+      apply Nat.eqb_eq in E2. apply (inv0_fresh _ _ I0) in E. lia.
+  - pose proof (invF_ne _ _ IF) as Hne.
+    destruct (invF_file _ _ IF) as (i & Li & Ui).
+    assert (HL : lexreal f [] wd = true) by (apply wd_lexreal; exact (invF_anc _ _ IF)).
+    assert (Hns : nosym f wd) by (apply nosym_of_lookup; [exact HL | intros; rewrite Li; discriminate]).
+    rewrite (walk_follow_agrees f FUEL NLINK [] (Nms wd) Hns) in H.
+    pose proof (walk_at_file f i wd FUEL NLINK [] false HL Hne Li) as W.
+    destruct (walk FUEL f NLINK [] (Nms wd) false); try contradiction; try discriminate.
+    destruct W as [-> ->]. injection H as <-. split.
+    + constructor.
+      * exact Hne.
+      * exact (invF_anc _ _ IF).
+      * exists i. split; [exact Li | exact Ui].
+      * exact (invF_none _ _ IF).
+      * exact (invF_fresh _ _ IF).
+    + intros q Hq. unfold view_at. rewrite lookup_setcont.
+      destruct (lookup f q) as [[|j|]|] eqn:E; try reflexivity.
+      f_equal. apply content_setcont_other. intros ->. apply Ui in E. subst q.
+      rewrite inside_refl in Hq. discriminate.
+Qed.
+
+(* the failed verification removes the file again: the working directory is missing again *)
+Lemma remove_wd_keeps3 wd f f3 :
+  InvF wd f -> remove_at f wd = Some f3 -> Inv0 wd f3 /\ same_outside wd f f3.
+Proof.
+  intros IF H. unfold remove_at, awalk in H.
+  pose proof (invF_ne _ _ IF) as Hne.
+  destruct (invF_file _ _ IF) as (i & Li & Ui).
+  assert (HL : lexreal f [] wd = true) by (apply wd_lexreal; exact (invF_anc _ _ IF)).
+  pose proof (walk_at_file f i wd FUEL NLINK [] false HL Hne Li) as W.
+  destruct (walk FUEL f NLINK [] (Nms wd) false); try contradiction; try discriminate.
+  destruct W as [-> ->]. injection H as <-. split.
+  - constructor.
+    + exact Hne.
+    + intros q r E Hq. simpl. rewrite lookup_delent, (path_eqb_neq wd q); [apply (invF_anc _ _ IF q r E Hq)|].
+      intro E'. apply (prefix_not_wd wd q r Hne E). now symmetry.
+    + intros p Hp. rewrite lookup_delent. destruct (path_eqb wd p) eqn:Eq; [reflexivity|].
+      apply (invF_none _ _ IF). apply inside_spec in Hp as [r ->]. destruct r as [|x r'].
+      * rewrite app_nil_r, path_eqb_refl in Eq. discriminate.
+      * exists x, r'. reflexivity.
+    + intros p j. rewrite lookup_delent. destruct (path_eqb wd p); [discriminate|]. apply (invF_fresh _ _ IF).
+  - intros q Hq. unfold view_at. rewrite lookup_delent, (path_eqb_neq wd q) by (intros ->; rewrite inside_refl in Hq; discriminate).
+    reflexivity.
+Qed.
+
+Lemma push_blob_at_wd wd s title w good s' ok :
+  Inv0 wd (st_fs s) \/ InvF wd (st_fs s) -> lex_loc wd title = wd ->
+  push_blob cfg_fixed wd s title w good = (s', ok) ->
+  Keeps3 wd (st_fs s) (st_fs s').
+Proof.
+  intros I Hcw H.
+  assert (P3 : PreInv3 wd (st_fs s)) by (destruct I; [right; left | right; right]; assumption).
+  assert (Hne : wd <> []) by (destruct I as [I|I]; [exact (inv0_ne _ _ I) | exact (invF_ne _ _ I)]).
+  assert (HA : RealD (st_fs s) [] (removelast wd)) by (destruct I as [I|I]; [exact (inv0_anc _ _ I) | exact (invF_anc _ _ I)]).
+  unfold push_blob in H.
+  destruct (existsb (str_eqb title) (st_names s)).
+  { injection H as <- _. now apply Keeps3_refl. }
+  destruct (write_path cfg_fixed wd title) as [raw|] eqn:EW.
+  2:{ injection H as <- _. now apply Keeps3_refl. }
+  pose proof (write_path_lex _ _ _ _ EW) as [_ Ecl].
+  destruct (write_path_fixed _ _ _ EW) as (cl & -> & Hcl).
+  rewrite clean_abs_names in Ecl. rewrite Hcw in Ecl. subst cl.
+  unfold cached, remember in H. cbn [fixW fixK cfg_fixed negb andb] in H.
+  rewrite removelast_Nms, !clean_abs_names in H.
+  unfold ensure_write_dir in H. cbn [fixN cfg_fixed] in H.
+  destruct (strip_prefix wd (removelast wd)) as [rel|] eqn:SP.
+  { exfalso. apply strip_prefix_spec in SP. apply (prefix_not_wd wd wd rel Hne SP). reflexivity. }
+  destruct (mkdir_all (st_fs s) (Nms (removelast wd)) c11_ensure_dir_perm) as [f1|] eqn:M.
+  2:{ injection H as <- _. now apply Keeps3_refl. }
+  unfold mkdir_all in M. apply (mkdir_prefixes_noop (st_fs s) _ (removelast wd) [] f1 HA) in M. subst f1.
+  rewrite path_eqb_refl in H. cbn [negb andb] in H.
+  destruct (write_at (st_fs s) (Nms wd) w 438) as [f2|] eqn:Wr.
+  2:{ injection H as <- _. now apply Keeps3_refl. }
+  destruct (write_wd_keeps3 wd _ w f2 I Wr) as [IF2 S2].
+  destruct good.
+  { injection H as <- _. split; [right; right; exact IF2 | exact S2]. }
+  destruct (remove_at f2 wd) as [f3|] eqn:Rm; injection H as <- _; simpl.
+  - destruct (remove_wd_keeps3 wd f2 f3 IF2 Rm) as [I03 S3].
+    split; [right; left; exact I03 | eapply same_outside_trans; eauto].
+  - split; [right; right; exact IF2 | exact S2].
+Qed.
+
+Lemma push_blob_keeps3 wd s title w good s' ok :
+  PreInv3 wd (st_fs s) ->
+  push_blob cfg_fixed wd s title w good = (s', ok) ->
+  Keeps3 wd (st_fs s) (st_fs s').
+Proof.
+  intros P3 H. destruct (path_eqb (lex_loc wd title) wd) eqn:E.
+  - apply path_eqb_spec in E. destruct P3 as [I|[I0|IF]].
+    + apply Keeps0_Keeps3, Keeps_Keeps0. eapply push_blob_keeps; eauto.
+    + eapply push_blob_at_wd; eauto.
+    + eapply push_blob_at_wd; eauto.
+  - assert (Hcw : lex_loc wd title <> wd) by (intro E'; rewrite E', path_eqb_refl in E; discriminate).
+    destruct P3 as [I|[I0|IF]].
+    + apply Keeps0_Keeps3. eapply push_blob_keeps0; eauto. now left.
+    + apply Keeps0_Keeps3. eapply push_blob_keeps0; eauto. now right.
+    + (* a file at the working directory's place: nothing below it can be written *)
+      assert (P3 : PreInv3 wd (st_fs s)) by (right; right; exact IF).
+      unfold push_blob in H.
+      destruct (existsb (str_eqb title) (st_names s)).
+      { injection H as <- _. now apply Keeps3_refl. }
+      destruct (write_path cfg_fixed wd title) as [raw|] eqn:EW.
+      2:{ injection H as <- _. now apply Keeps3_refl. }
+      pose proof (write_path_lex _ _ _ _ EW) as [_ Ecl].
+      destruct (write_path_fixed _ _ _ EW) as (cl & -> & Hcl).
+      rewrite clean_abs_names in Ecl. rewrite <- Ecl in Hcw.
+      unfold cached, remember in H. cbn [fixW fixK cfg_fixed negb andb] in H.
+      rewrite removelast_Nms, !clean_abs_names in H.
+      destruct (strip_prefix wd (removelast cl)) as [rel|] eqn:SP.
+      2:{ destruct (parent_outside wd cl Hcl SP) as [E' _]. contradiction. }
+      apply strip_prefix_spec in SP. rewrite SP in H.
+      rewrite (ensure_write_dir_file wd (st_fs s) rel _ IF) in H.
+      injection H as <- _. now apply Keeps3_refl.
+Qed.
+
+Lemma push_dir_keeps3 wd pres cwd s title ts es how s' ok :
+  PreInv3 wd (st_fs s) ->
+  push_dir cfg_fixed pres wd cwd s title ts es how = (s', ok) ->
+  Keeps3 wd (st_fs s) (st_fs s').
+Proof.
+  intros [I|[I0|IF]] H.
+  - apply Keeps0_Keeps3. eapply push_dir_keeps0; eauto. now left.
+  - apply Keeps0_Keeps3. eapply push_dir_keeps0; eauto. now right.
+  - assert (P3 : PreInv3 wd (st_fs s)) by (right; right; exact IF).
+    unfold push_dir in H.
+    destruct (existsb (str_eqb title) (st_names s)).
+    { injection H as <- _. now apply Keeps3_refl. }
+    destruct (write_path cfg_fixed wd title) as [raw|] eqn:EW.
+    2:{ injection H as <- _. now apply Keeps3_refl. }
+    destruct (write_path_fixed _ _ _ EW) as (cl & -> & Hcl).
+    unfold cached, remember in H. cbn [fixK cfg_fixed negb andb] in H.
+    rewrite clean_abs_names in H.
+    apply inside_spec in Hcl as [rel ->].
+    rewrite (ensure_write_dir_file wd (st_fs s) rel _ IF) in H.
+    injection H as <- _. now apply Keeps3_refl.
+Qed.
+
+Lemma restore_layers_keeps3 wd : forall layers s s' ok,
+  PreInv3 wd (st_fs s) ->
+  restore_layers cfg_fixed wd s layers = (s', ok) ->
+  Keeps3 wd (st_fs s) (st_fs s').
+Proof.
+  induction layers as [|[t c] r IH]; intros s s' ok I H.
+  - injection H as <- _. now apply Keeps3_refl.
+  - cbn [restore_layers] in H.
+    destruct t as [|t0 tt]; [now apply (IH s s' ok)|].
+    destruct (existsb (str_eqb (t0 :: tt)) (st_names s)); [now apply (IH s s' ok)|].
+    destruct (fetch s c) as [| |c']; [now apply (IH s s' ok) | injection H as <- _; now apply Keeps3_refl |].
+    destruct (push_blob cfg_fixed wd s (t0 :: tt) c' ((c' =? c)%N && negb (c =? 0)%N)) as [s1 ok1] eqn:P.
+    pose proof (push_blob_keeps3 _ _ _ _ _ _ _ I P) as K1.
+    destruct ok1.
+    + eapply Keeps3_trans; [exact K1|]. apply (IH s1 s' ok (proj1 K1) H).
+    + injection H as <- _. exact K1.
+Qed.
+
+Lemma push_keeps3 wd pres cwd s o s' ok :
+  PreInv3 wd (st_fs s) ->
+  push cfg_fixed pres wd cwd s o = (s', ok) ->
+  Keeps3 wd (st_fs s) (st_fs s').
+Proof.
+  intros I H. unfold push in H. destruct o as [t c|t ts es|layers|how t ts es].
+  - destruct t as [|t0 tt].
+    + destruct ((c =? 0)%N || existsb (str_eqb [0%N; c]) (st_names s)); injection H as <- _; now apply Keeps3_refl.
+    + eapply push_blob_keeps3; eauto.
+  - destruct t as [|t0 tt].
+    + injection H as <- _. now apply Keeps3_refl.
+    + eapply push_dir_keeps3; eauto.
+  - destruct (existsb (str_eqb (manifest_marker layers)) (st_names s)).
+    + injection H as <- _. now apply Keeps3_refl.
+    + apply (restore_layers_keeps3 wd layers (mkStore (st_fs s) (manifest_marker layers :: st_names s) (st_d2p s)) s' ok I H).
+  - destruct t as [|t0 tt].
+    + injection H as <- _. now apply Keeps3_refl.
+    + eapply push_dir_keeps3; eauto.
+Qed.
+
+Lemma pushes_keeps3 wd pres cwd : forall os s s' oks,
+  PreInv3 wd (st_fs s) ->
+  pushes cfg_fixed pres wd cwd s os = (s', oks) ->
+  Keeps3 wd (st_fs s) (st_fs s').
+Proof.
+  induction os as [|o os IH]; intros s s' oks I H.
+  - injection H as <- _. now apply Keeps3_refl.
+  - cbn [pushes] in H.
+    destruct (push cfg_fixed pres wd cwd s o) as [s1 ok] eqn:P.
+    destruct (pushes cfg_fixed pres wd cwd s1 os) as [s2 oks2] eqn:Ps.
+    injection H as <- _.
+    pose proof (push_keeps3 _ _ _ _ _ _ _ I P) as K1.
+    eapply Keeps3_trans; [exact K1|]. eapply IH; eauto. exact (proj1 K1).
+Qed.
+
+(* a named blob titled like the missing working directory makes it a regular file; a later push
+   below it fails, one that fails verification removes it again *)
+Definition os_wd_as_file : list pushop :=
+  [PBlob (b ".") 5%N; PBlob (b "x") 6%N; PDir (b "t") [] [EDir (b "t/a") 493%N]; PBlob (b "/r/w") 0%N; PBlob (b "x") 7%N].
+
+Lemma wd_as_file_ok :
+  snd (pushes cfg_fixed false wd0 cwd0 (mkStore fs3 [] []) os_wd_as_file) = [true; false; false; false; true] /\
+  lookup (st_fs (fst (pushes cfg_fixed false wd0 cwd0 (mkStore fs3 [] []) os_wd_as_file))) wd0 = Some NDir /\
+  view_at (st_fs (fst (pushes cfg_fixed false wd0 cwd0 (mkStore fs3 [] []) os_wd_as_file))) [b "victim"] = view_at fs3 [b "victim"].
+Proof. vm_compute. repeat split. Qed.
